@@ -238,6 +238,8 @@ def validation_vectors(summaries, extra=None):
 def native_op(summ):
     if summ.via == "built-in":
         return "B:" + summ.op
+    if summ.via.startswith("instruction `bin_op_assign"):
+        return "A:" + summ.op
     return summ.op if summ.via == "function" else "I:" + summ.op
 
 
